@@ -162,7 +162,7 @@ def campaign(strategy, check, n, seed, stats: Stats, tier='quick', shrink=None, 
     except Violation:
         stats.violation(holder['v'])
     except hypothesis.errors.Flaky as e:  # nondeterministic check = harness defect, never a verdict
-        raise HarnessError(f'flaky check: {e}')
+        raise HarnessError('flaky check: ' + ''.join(traceback.format_exception(e))[-6000:])
     except hypothesis.errors.FailedHealthCheck as e:
         raise HarnessError(f'generator health check failed: {e}')
 
